@@ -42,8 +42,8 @@ func RunWorker(prop string, seed uint64, worker, cases int, scratch, out string,
 		os.Remove(jpath)
 		return res.WriteFile(out)
 	}
-	if prop == "C14" && worker == 1 {
-		// one worker starts with the twin comparison of answers and engine verdicts
+	if prop == "C14" && worker >= 1 && worker <= 4 {
+		// four workers start with their share of the twin comparison of answers and engine verdicts
 		runStatusAgreement(res, seed, scratch, j, worker)
 		res.WriteFile(out)
 	}
